@@ -30,7 +30,11 @@ def spellable(knames):
     lit = st.lists(st.sampled_from([0, 1, 2, 3, "a", "z", -1, True, False]), min_size=2, max_size=4, unique_by=repr).map(
         lambda v: ["lit", v])
     lst = cls.map(lambda c: ["listof", c])
-    return st.one_of(union, union, optional, st.just(["obj"]), lit, lst, cls)
+    # a value-dependent type whose bound is a union of classes (the bound can be respelled too)
+    depu = st.sampled_from([["dep", ["union", [["cls", "int"], ["cls", "float"]]], "pos"],
+                            ["dep", ["union", [["cls", "int"], ["cls", "str"]]], "truthy"],
+                            ["dep", ["union", [["cls", "list"], ["cls", "tuple"]]], "short"]])
+    return st.one_of(union, union, optional, st.just(["obj"]), lit, lst, cls, depu)
 
 
 def case_strategy():
@@ -58,6 +62,8 @@ def case_strategy():
             options += ["union-permute", "union-pipe", "union-tuple", "union-permute-pipe"]
             if len(a[1]) == 2 and ["cls", "NoneType"] in a[1]:
                 options += ["optional", "optional"]
+        if a[0] == "dep" and a[1][0] == "union":
+            options += ["bound-pipe", "bound-tuple", "bound-pipe", "bound-tuple"]
         if a[0] == "obj":
             options += ["any", "missing", "any", "missing", "annotated-any", "string-annotated-any"]
         if a[0] == "lit" and len(a[1]) >= 2:
@@ -101,6 +107,10 @@ def variant(spec):
         sp = {"union": "tuple"}
     elif how == "optional":
         sp = {"union": "optional"}
+    elif how == "bound-pipe":
+        sp = {"bound_union": "pipe"}
+    elif how == "bound-tuple":
+        sp = {"bound_union": "tuple"}
     elif how == "any":
         sp = {"obj": "any"}
     elif how == "annotated-any":
